@@ -1,5 +1,6 @@
 (* C03 — upload integrity (read path): served bytes are exact whatever the read cache does. *)
 From RainV Require Import Lib Geometry SectionIO Cache CacheProofs Wire WireProofs Admission AdmissionProofs.
+From RainV Require Wire WireProofs.
 
 (* for every piece content, every read-cache block size rs > 0 and every request position
    inside the piece -- aligned or not to 16 KiB blocks or to rs -- the bytes handed to the
@@ -43,3 +44,15 @@ Theorem C03_no_wraparound : forall begin len plen, 0 <= begin < two32a -> 0 <= l
   valid_request begin len plen = true -> begin < plen /\ begin + len <= plen /\ len <> 0.
 Proof. exact no_wraparound. Qed.
 Print Assumptions C03_no_wraparound.
+
+(* the peer writer's queue: when a choke is queued, every piece message still waiting in the queue is
+   dropped (none is sent after the client started choking), for every queue content; and the number of
+   waiting pieces never exceeds the configured bound, for every sequence of operations *)
+Theorem C03_choke_flushes_queued_pieces : forall maxq fast q,
+  existsb Wire.is_piece (Wire.wq_op maxq fast q Wire.Choke) = false.
+Proof. exact WireProofs.choke_flushes_queued_pieces. Qed.
+Print Assumptions C03_choke_flushes_queued_pieces.
+Theorem C03_writer_queue_bounded : forall maxq fast ms, 0 <= maxq ->
+  Wire.count_pieces (fold_left (Wire.wq_op maxq fast) ms []) <= maxq.
+Proof. exact WireProofs.writer_queue_bounded. Qed.
+Print Assumptions C03_writer_queue_bounded.
